@@ -104,7 +104,127 @@ bl_seed_cb(tpt_p tpt, void *udata) {
 static void msg_scenario(int idx);
 static void check_sends(const mvar_t *v);
 static void backlog_scenario(int idx);
+static void pvtmix_scenario(int idx);
+static void attach_scenario(int idx);
 #include "c05_variants.h"
+
+/* ---- the pool virtual thread carries a message AND a user event at the same time, while the worker(s) are
+ * busy: both must be handled once the workers are free (nothing may be lost behind the nested epoll). ---- */
+#include <fcntl.h>
+#include <unistd.h>
+static int pm_pipe[2];
+static tp_udata_t pm_ud;
+static int pm_fired = 0;
+
+static void
+pm_ev_cb(tp_event_p ev, tp_udata_p u) {
+	(void)ev; (void)u;
+	pm_fired ++;
+	sc_log("user event on the virtual thread fired (%d)", pm_fired);
+}
+
+static void
+pvtmix_scenario(int idx) {
+	const mvar_t *v = &variants[idx];
+	int k, rc, i;
+
+	cur = v;
+	for (k = 0; k < MAXS; k ++) { s_rc[k] = -12345; s_begin[k] = s_ret[k] = -1; s_tid[k] = -1; s_realdst[k] = -1; }
+	tpc_up(v->W, 0);
+	gate1 = 0;
+	for (i = 0; i < v->W; i ++) {	/* every worker is busy inside a callback */
+		rc = tpt_msg_send(tp_thread_get(tpc_tp, (size_t)i), NULL, 0, gate_cb, NULL);
+		if (0 != rc) sc_fail("harness", "gate send rc=%d", rc);
+	}
+	sc_wait_quiescent();
+	if (0 != pipe2(pm_pipe, O_NONBLOCK) || 1 != write(pm_pipe[1], "x", 1))
+		sc_fail("harness", "pipe");
+	memset(&pm_ud, 0, sizeof(pm_ud));
+	pm_ud.cb_func = pm_ev_cb;
+	pm_ud.ident = (uintptr_t)pm_pipe[0];
+	pm_fired = 0;
+	rc = tpt_ev_add_args2(tp_thread_get_pvt(tpc_tp), TP_EV_READ, TP_F_ONESHOT, &pm_ud);
+	if (0 != rc) sc_fail("harness", "event add on the virtual thread rc=%d", rc);
+	do_sends(1, NULL);		/* the external sender's messages to the virtual thread */
+	gate1 = 1;
+	sc_wait_quiescent();
+	if (1 != pm_fired)
+		sc_log("note: one-shot event on the virtual thread fired %d time(s)", pm_fired); /* C06's business, not judged here */
+	check_sends(v);
+}
+
+/* ---- a thread that ran pool thread 0 through tp_thread_attach_first() and left it again is an ordinary outside
+ * thread afterwards: its sends must be treated as coming from outside. ---- */
+static int probe_runs = 0, probe_tid = -1, probe_cur = -2;
+static void
+attach_probe_cb(tpt_p tpt, void *udata) {	/* an ordinary message handled while the outside thread is pool thread 0 */
+	tpt_p c = tpt_get_current();
+	(void)udata; (void)tpt;
+	probe_runs ++;
+	probe_tid = sc_self();
+	probe_cur = (NULL != c) ? (int)tpt_get_num(c) : -1;
+	sc_log("probe callback on attached thread: current=%d", probe_cur);
+}
+
+static void
+attach_detach_cb(tpt_p tpt, void *udata) {
+	(void)udata;
+	tp_thread_dettach(tpt);
+}
+
+static void
+attach_scenario(int idx) {
+	const mvar_t *v = &variants[idx];
+	int k, rc;
+
+	cur = v;
+	for (k = 0; k < MAXS; k ++) { s_rc[k] = -12345; s_begin[k] = s_ret[k] = -1; s_tid[k] = -1; s_realdst[k] = -1; }
+	rc = tpc_create(v->W);
+	if (0 != rc) sc_fail("harness", "tp_create rc=%d", rc);
+	rc = tp_threads_create(tpc_tp, 1);	/* thread 0 is left for the attaching thread */
+	if (0 != rc) sc_fail("harness", "tp_threads_create rc=%d", rc);
+	/* thread 0 will leave its loop as soon as it processes this message (state STARTING counts as running for the send) */
+	(void)tp_thread_get(tpc_tp, 0);
+	{	/* mark thread 0 as starting the way attach_first does, queue the detach, then attach */
+		tpt_p t0 = tp_thread_get(tpc_tp, 0);
+		/* the send needs a running/starting destination: attach first sets STARTING itself, so queue from a helper */
+		(void)t0;
+	}
+	{
+		pthread_t helper;
+		extern void *c05_detach_sender(void *);
+		pthread_create(&helper, NULL, c05_detach_sender, NULL);
+		rc = tp_thread_attach_first(tpc_tp);	/* runs pool thread 0 on THIS thread until the detach message arrives */
+		if (0 != rc) sc_fail("harness", "attach_first rc=%d", rc);
+		pthread_join(helper, NULL);
+	}
+	sc_wait_quiescent();
+	if (1 != probe_runs || 0 != probe_tid || 0 != probe_cur)
+		sc_fail("attached-thread-message", "message to the attached thread 0: ran %d time(s), on scheduler thread T%d, tpt_get_current()=%d", probe_runs, probe_tid, probe_cur);
+	if (NULL != tpt_get_current())
+		sc_log("note: tpt_get_current() still names a pool thread after the thread left the pool");	/* judged through its consequences below */
+	/* now an outside thread again; thread 0 is stopped */
+	do_sends(1, NULL);
+	sc_wait_quiescent();
+	check_sends(v);
+}
+
+void *
+c05_detach_sender(void *arg) {
+	int rc, i;
+	(void)arg;
+	for (i = 0; i < 50; i ++) {	/* until the attaching thread has marked thread 0 as started */
+		rc = tpt_msg_send(tp_thread_get(tpc_tp, 0), NULL, 0, attach_probe_cb, NULL);
+		if (0 == rc) {
+			rc = tpt_msg_send(tp_thread_get(tpc_tp, 0), NULL, 0, attach_detach_cb, NULL);
+			if (0 != rc) sc_fail("harness", "detach send rc=%d", rc);
+			return (NULL);
+		}
+		sc_yield("wait-for-attach");
+	}
+	sc_fail("harness", "thread 0 never became sendable");
+	return (NULL);
+}
 
 static void
 backlog_scenario(int idx) {
